@@ -5,6 +5,8 @@ package dbh
 import (
 	"bytes"
 	"context"
+	"reflect"
+	"unsafe"
 	"errors"
 	"fmt"
 	"io"
@@ -18,6 +20,7 @@ import (
 
 	"github.com/glebziz/fs_db"
 	"github.com/glebziz/fs_db/config"
+	"github.com/glebziz/fs_db/internal/di"
 	"github.com/glebziz/fs_db/pkg/inline"
 	"github.com/glebziz/fs_db/verifh/model"
 	"github.com/glebziz/fs_db/verifrt/badger"
@@ -34,6 +37,12 @@ func Base() string {
 	if base != "" {
 		return base
 	}
+	if d := os.Getenv("VERIF_BASE_DIR"); d != "" {
+		base = d
+		os.MkdirAll(base, 0o755)
+		ownBase = false
+		return base
+	}
 	root := "/dev/shm"
 	if st, err := os.Stat(root); err != nil || !st.IsDir() {
 		root = os.TempDir()
@@ -46,9 +55,18 @@ func Base() string {
 	return base
 }
 
+var ownBase = true
+
+// SwapBase points this process at another scratch directory; the returned function restores the old one.
+func SwapBase(dir string) func() {
+	old, oldOwn := base, ownBase
+	base, ownBase = dir, false
+	return func() { base, ownBase = old, oldOwn }
+}
+
 // Cleanup removes the process scratch directory.
 func Cleanup() {
-	if base != "" {
+	if base != "" && ownBase {
 		os.RemoveAll(base)
 	}
 }
@@ -132,6 +150,26 @@ func (in *Inst) Close() error {
 func GC() {
 	vrt.Advance(GCPeriod)
 	vrt.Quiesce()
+}
+
+// GCOn is GC for either mode: under the scheduler the production path above; free-running (real time,
+// no virtual clock) the very function the scheduled job calls, cleaner.DeleteOld, is invoked directly
+// on the instance's container (reached by reflection: the inline client does not export it).
+func GCOn(in *Inst) error {
+	if vrt.Managed() {
+		GC()
+		return nil
+	}
+	v := reflect.ValueOf(in.DB)
+	if v.Kind() == reflect.Ptr {
+		v = v.Elem()
+	}
+	f := v.FieldByName("container")
+	if !f.IsValid() || f.Kind() != reflect.Ptr {
+		return fmt.Errorf("no container in %T", in.DB)
+	}
+	c := (*di.Container)(unsafe.Pointer(f.Pointer()))
+	return c.Cleaner().DeleteOld(context.Background())
 }
 
 // ------------------------------------------------------------------ values
@@ -301,4 +339,11 @@ func (s *Snapshot) Restore() error {
 	vrt.ResetGlobals()
 	uuid.SetRand(&vrt.DetRand{N: s.uuidN})
 	return nil
+}
+
+// OpenReal opens the instance on the real Badger engine (conformance tier).
+func OpenReal(spec Spec) (*Inst, error) {
+	badger.UseReal = true
+	defer func() { badger.UseReal = false }()
+	return Open(spec)
 }
